@@ -3,6 +3,7 @@ package props
 import (
 	"bytes"
 	"fmt"
+	"runtime/debug"
 	"testing"
 
 	lz4 "github.com/pierrec/lz4/v4"
@@ -142,7 +143,7 @@ func TestC11(t *testing.T) {
 func safelyC11(c compCase, src []byte, rec *stat.Rec) (f *stat.Failure) {
 	defer func() {
 		if r := recover(); r != nil {
-			f = stat.Failf("harness-or-library-panic", "panic: %v", r)
+			f = panicFailure(rec.ID, r, debug.Stack())
 		}
 	}()
 	return runC11With(c, src, rec)
